@@ -1793,6 +1793,58 @@ def _coalesce_generated(fn: ast.FunctionDef) -> bool:
     return find(fn.body)
 
 
+def _coalesce_select(fn: ast.FunctionDef) -> bool:
+    """`if c: w = A else: w = B` directly followed by `v = w`, w a name introduced by inlining that occurs nowhere
+    else: the branches define v themselves (`v = v` arms disappear, an `if` left with an empty else loses it)."""
+    def gen(name: str) -> bool:
+        return '__inl' in name or name.startswith('__r')
+    total: Dict[str, int] = {}
+    for n in ast.walk(fn):
+        if isinstance(n, ast.Name) and gen(n.id):
+            total[n.id] = total.get(n.id, 0) + 1
+
+    def find(block) -> bool:
+        for k in range(len(block) - 1):
+            s, nx = block[k], block[k + 1]
+            if isinstance(s, ast.If) and s.orelse and isinstance(nx, ast.Assign) and len(nx.targets) == 1 \
+                    and isinstance(nx.targets[0], ast.Name) and isinstance(nx.value, ast.Name) and gen(nx.value.id):
+                v, w = nx.targets[0].id, nx.value.id
+                arms = [s.body, s.orelse]
+                if all(a and _plain_def(a[-1], w) for a in arms) and total.get(w, 0) == 3 \
+                        and not any(isinstance(n, ast.Name) and n.id == v and isinstance(n.ctx, ast.Store)
+                                    for a in arms for x in a for n in ast.walk(x)):
+                    # (a test that reads v is fine: it is evaluated before either arm assigns)
+                    for a in arms:
+                        a[-1].targets[0].id = v
+                        if isinstance(a[-1].value, ast.Name) and a[-1].value.id == v:
+                            del a[-1]
+                    if not s.body:
+                        # only the else arm is left: flip the test
+                        s.test = ast.copy_location(ast.UnaryOp(op=ast.Not(), operand=s.test), s.test)
+                        s.body, s.orelse = s.orelse, []
+                    del block[k + 1]
+                    if not s.body and not s.orelse:
+                        del block[k]
+                    return True
+            if isinstance(s, (ast.FunctionDef, ast.ClassDef)):
+                continue
+            for b in _blocks_of(s):
+                if find(b):
+                    return True
+        return False
+    ch = False
+    while find(fn.body):
+        ch = True
+        total.clear()
+        for n in ast.walk(fn):
+            if isinstance(n, ast.Name) and gen(n.id):
+                total[n.id] = total.get(n.id, 0) + 1
+    if ch:
+        ast.fix_missing_locations(fn)
+        _invalidate()
+    return ch
+
+
 # ----------------------------------------------------------------------------------------------
 # N12: `a, b = E` followed by `T1 = a`, `T2 = b` (a, b otherwise unused)  ->  `T1, T2 = E`
 # ----------------------------------------------------------------------------------------------
@@ -1990,6 +2042,55 @@ def _unroll_comprehension_loops(fn: ast.FunctionDef) -> bool:
 # ----------------------------------------------------------------------------------------------
 # N14: lengths of arrays that are bound once get one name each
 # ----------------------------------------------------------------------------------------------
+
+def _lengths_of_like_arrays(fn: ast.FunctionDef) -> bool:
+    """N18: `len(v)` where v is bound exactly once, by `np.zeros_like(E)` / `np.empty_like(E)` / `np.ones_like(E)` with E
+    a name or attribute chain that is never re-bound in the function, is `len(E)`: an array has the length of the
+    array it was shaped after, and array lengths never change."""
+    stores: Dict[str, int] = {}
+    for n in ast.walk(fn):
+        if isinstance(n, ast.Name) and isinstance(n.ctx, (ast.Store, ast.Del)):
+            stores[n.id] = stores.get(n.id, 0) + 1
+    attr_stores = set()
+    for n in ast.walk(fn):
+        if isinstance(n, ast.Attribute) and isinstance(n.ctx, (ast.Store, ast.Del)):
+            attr_stores.add(ast.unparse(n))
+    params = _fn_params(fn)
+    like: Dict[str, ast.expr] = {}
+    for n in ast.walk(fn):
+        if isinstance(n, ast.Assign) and len(n.targets) == 1 and isinstance(n.targets[0], ast.Name) \
+                and stores.get(n.targets[0].id) == 1 and n.targets[0].id not in params \
+                and isinstance(n.value, ast.Call) and not n.value.keywords and len(n.value.args) == 1 \
+                and ast.unparse(n.value.func) in ('np.zeros_like', 'np.empty_like', 'np.ones_like'):
+            e = n.value.args[0]
+            b = _base_name(e)
+            chain_ok = isinstance(e, ast.Name) or (isinstance(e, ast.Attribute) and all(
+                isinstance(x, (ast.Attribute, ast.Name, ast.Load)) for x in ast.walk(e)))
+            if b is None or not chain_ok:
+                continue
+            if stores.get(b, 0) > (0 if b in params else 1) or any(a == ast.unparse(e) or ast.unparse(e).startswith(a + '.')
+                                                                    for a in attr_stores):
+                continue
+            like[n.targets[0].id] = e
+    if not like:
+        return False
+    changed = False
+
+    class T(ast.NodeTransformer):
+        def visit_Call(self, node):
+            nonlocal changed
+            self.generic_visit(node)
+            if isinstance(node.func, ast.Name) and node.func.id == 'len' and len(node.args) == 1 and not node.keywords \
+                    and isinstance(node.args[0], ast.Name) and node.args[0].id in like:
+                changed = True
+                return ast.copy_location(ast.Call(func=node.func, args=[copy.deepcopy(like[node.args[0].id])], keywords=[]), node)
+            return node
+    T().visit(fn)
+    if changed:
+        ast.fix_missing_locations(fn)
+        _invalidate()
+    return changed
+
 
 def _name_lengths(fn: ast.FunctionDef):
     """Every `len(x)` of a parameter or once-defined local x that is never re-bound is replaced by the local
@@ -2674,7 +2775,7 @@ def normalize_function(fn: ast.FunctionDef, module_helpers: Dict[str, ast.Functi
         _invalidate()
         for _ in range(8):
             ch = _inline_temps(fn, True)
-            while _coalesce_copies(fn) or _coalesce_generated(fn):
+            while _coalesce_copies(fn) or _coalesce_generated(fn) or _coalesce_select(fn):
                 ch = True
             if not ch:
                 ch = _inline_temps(fn, False)   # copies of generated names that coalescing could not remove
@@ -2690,6 +2791,7 @@ def normalize_function(fn: ast.FunctionDef, module_helpers: Dict[str, ast.Functi
         if cur == prev:
             break
         prev = cur
+    _lengths_of_like_arrays(fn)
     _name_lengths(fn)
 
 
